@@ -97,9 +97,13 @@ func (in *InExpr) Resolve(types []reflect.Type, isVariadic bool) error {
 // Eval InExpr 表达式执行
 func (in *InExpr) Eval(input []reflect.Value, isVariadic bool) (bool, error) {
 	if isVariadic {
-		// 可变参数需要展开参数数组
+		// 可变参数需要展开参数数组(只有最后一个参数是可变参数数组, 前面的固定参数保持不变)
 		expandArgs := make([]reflect.Value, 0)
-		for _, v := range input {
+		for j, v := range input {
+			if j < len(input)-1 {
+				expandArgs = append(expandArgs, v)
+				continue
+			}
 			rv := reflect.ValueOf(v.Interface())
 			for i := 0; i < rv.Len(); i++ {
 				expandArgs = append(expandArgs, rv.Index(i))
@@ -110,7 +114,8 @@ func (in *InExpr) Eval(input []reflect.Value, isVariadic bool) (bool, error) {
 outer:
 	for _, one := range in.expressions {
 		if len(input) != len(one) {
-			return false, nil
+			// 参数个数不同的候选项不匹配, 继续尝试其它候选项
+			continue
 		}
 		for i, param := range one {
 			v, err := param.Eval([]reflect.Value{input[i]}, isVariadic)
